@@ -24,9 +24,13 @@
          A repeated path that IS a file of HEAD is harmless.  Hence the
          hypothesis [repeats_in_head] of (R2) (implied by [NoDup] of the targets;
          [idx_targets_nodup] gives a sufficient condition on the arguments).
-   (F-3) `restore --staged .` does not bring back the paths of HEAD that were
-         removed from the staging area: "." selects staged paths only
-         ([rx_staged_dot]); [st_selected_spec] says so explicitly.
+   (F-3, repaired) `restore --staged .` used to leave out the paths of HEAD that
+         were removed from the staging area (the root of the snapshot is not a
+         tree node, [get_node ns "."] finds nothing).  Since the repair "."
+         selects every path of the staging area AND of HEAD's snapshot
+         ([rx_staged_dot_restores]), [st_selected_spec] needs no exception for
+         "." and [restore_staged_dot_resets_everything] says that the staging
+         area becomes HEAD's snapshot.
    The exact description of what a directory argument selects in HEAD
    ([head_dir_paths_complete], [st_selected_iff]) carries the hypothesis
    [nodes_unique]: no two directory entries of one name in a tree.  Goit never
@@ -615,17 +619,32 @@ Proof.
 Qed.
 
 (* the paths [restore --staged] takes from HEAD's snapshot for a directory argument *)
+(* "." names the root of the snapshot, which is not a node: every file of the
+   snapshot lies beneath it *)
 Definition head_dir_paths (ns : list node) (a : bytes) : list bytes :=
+  (if bytes_eqb a [x2e] then map e_path (flatten [] ns) else []) ++
   match get_node ns a with
   | Some n => if is_leaf n then [] else map e_path (flatten_node (dirname a) n)
   | None => []
   end.
 
+Lemma head_dir_paths_dot : forall its q, Forall wf_item its ->
+  In q (paths_of its) -> In q (head_dir_paths (map node_of its) [x2e]).
+Proof.
+  intros its q Hwf Hq. unfold head_dir_paths. rewrite bytes_eqb_refl. apply in_or_app. left.
+  rewrite (flatten_items its Hwf). exact Hq.
+Qed.
+
 (* they are files of the snapshot, beneath the argument *)
 Lemma head_dir_paths_sound : forall its a q, Forall wf_item its ->
   In q (head_dir_paths (map node_of its) a) -> In q (paths_of its) /\ under_dir a q = true.
 Proof.
-  intros its a q Hwf Hq. unfold head_dir_paths in Hq.
+  intros its a q Hwf Hq. unfold head_dir_paths in Hq. apply in_app_or in Hq.
+  destruct Hq as [Hq|Hq].
+  { destruct (bytes_eqb a [x2e]) eqn:Ea; [|contradiction Hq]. apply bytes_eqb_eq in Ea. subst a.
+    rewrite (flatten_items its Hwf) in Hq. split; [exact Hq|].
+    apply under_dir_dot. unfold paths_of in Hq. apply in_map_iff in Hq. destruct Hq as [e0 [<- He0]].
+    apply (rf_flat_path_nonempty its e0 Hwf He0). }
   destruct (get_node (map node_of its) a) as [x|] eqn:Hg; [|contradiction Hq].
   destruct (is_leaf x) eqn:Hl; [contradiction Hq|].
   unfold get_node in Hg.
@@ -779,7 +798,8 @@ Proof.
     + split.
       * intros [<-|[]]. left. split; [reflexivity | right; discriminate].
       * intros [[-> _]|(_ & H & _)]; [left; reflexivity | discriminate H].
-    + change (match get_node ns a with
+    + change ((if bytes_eqb a [x2e] then map e_path (flatten [] ns) else []) ++
+              match get_node ns a with
               | Some n => if is_leaf n then [] else map e_path (flatten_node (dirname a) n)
               | None => []
               end) with (head_dir_paths ns a).
@@ -1030,20 +1050,26 @@ Proof.
   cbn [filter]. rewrite (H x (or_introl eq_refl)). apply IH. intros en Hen. apply H. right. exact Hen.
 Qed.
 
+(* with --staged, "." names the root of HEAD's snapshot: it is unknown only
+   when the snapshot is empty *)
 Lemma restore_targets_unknown : forall w stg_mode ns a,
   staged w a = None -> (forall en, In en (idx_of w) -> under_dir a (e_path en) = false) ->
-  (stg_mode = true -> get_node ns a = None) ->
+  (stg_mode = true -> get_node ns a = None /\ (a = [x2e] -> flatten [] ns = [])) ->
   restore_targets w stg_mode ns a = [].
 Proof.
   intros w stg_mode ns a Hs Hu Hn. unfold restore_targets. rewrite stg_tracked, Hs.
   rewrite (rf_entries_by_dir_nil (idx_of w) a Hu). destruct stg_mode; [|reflexivity].
-  unfold leaf_node. rewrite (Hn eq_refl). reflexivity.
+  destruct (Hn eq_refl) as [Hg Hdot].
+  unfold leaf_node. rewrite Hg. cbn [orb map app].
+  destruct (bytes_eqb a [x2e]) eqn:Ea; [|reflexivity].
+  apply bytes_eqb_eq in Ea. rewrite (Hdot Ea). reflexivity.
 Qed.
 
 Lemma cmd_restore_unknown_runs : forall c w stg_mode args a,
   In a args -> staged w a = None ->
   (forall en, In en (idx_of w) -> under_dir a (e_path en) = false) ->
-  (stg_mode = true -> forall ns, head_nodes c w = Some ns -> get_node ns a = None) ->
+  (stg_mode = true -> forall ns, head_nodes c w = Some ns ->
+     get_node ns a = None /\ (a = [x2e] -> flatten [] ns = [])) ->
   runs (cmd_restore c stg_mode args) w Err [].
 Proof.
   intros c w stg_mode args a Ha Hs Hu Hn.
@@ -1077,13 +1103,15 @@ Qed.
 
 (* (R3), both modes, ANY world (initialised or not, loadable or not): when some
    argument is unknown — not staged, nothing staged beneath it and, with
-   --staged, nothing at or beneath it in the nodes of HEAD — the command is
-   refused, the world is unchanged and nothing at all has been written,
-   whatever the other arguments are *)
+   --staged, nothing at or beneath it in the nodes of HEAD ("." names the root
+   of HEAD's snapshot: nothing beneath it means that the snapshot is empty) —
+   the command is refused, the world is unchanged and nothing at all has been
+   written, whatever the other arguments are *)
 Theorem restore_unknown_refused : forall e w stg_mode args a,
   In a args -> staged w a = None ->
   (forall en, In en (idx_of w) -> under_dir a (e_path en) = false) ->
-  (stg_mode = true -> forall c ns, ctx_of w = Some c -> head_nodes c w = Some ns -> get_node ns a = None) ->
+  (stg_mode = true -> forall c ns, ctx_of w = Some c -> head_nodes c w = Some ns ->
+     get_node ns a = None /\ (a = [x2e] -> flatten [] ns = [])) ->
   step (ACmd e (CRestore stg_mode args)) w = (w, OErr, []).
 Proof.
   intros e w stg_mode args a Ha Hs Hu Hn.
@@ -1135,7 +1163,15 @@ Proof.
   - intros en Hin. apply (Hidx (e_path en) (Hen en Hin)).
   - intros Hm c ns Hx Hn.
     destruct (reachable_head_nodes w c ns Hr Hc Hs Hx Hn) as (hid & cm & d & _ & Href & _ & _ & Hns & Hsn).
-    apply (get_node_none_intro ns a Hns). apply (Hsnap Hm hid (flatten [] ns) Href Hsn).
+    pose proof (Hsnap Hm hid (flatten [] ns) Href Hsn) as Hno.
+    split; [apply (get_node_none_intro ns a Hns); exact Hno|].
+    intros ->. destruct Hns as (its & -> & Hwf & _). rewrite (flatten_items its Hwf) in Hno |- *.
+    destruct (flat_items [] its) as [|en l] eqn:Ef; [reflexivity|]. exfalso.
+    assert (Hin : In en (flat_items [] its)) by (rewrite Ef; left; reflexivity).
+    destruct (Hno en (or_introl eq_refl)) as [_ Hu].
+    assert (Ht : under_dir [x2e] (e_path en) = true).
+    { apply under_dir_dot. apply (rf_flat_path_nonempty its en Hwf Hin). }
+    rewrite Ht in Hu. discriminate Hu.
 Qed.
 
 (* ================================================================== *)
@@ -1280,21 +1316,23 @@ Proof.
 Qed.
 
 (* exactness of the selection in HEAD: under [nodes_unique], for a directory
-   argument other than ".", EVERY file of the snapshot beneath it is selected *)
+   argument — "." included, which selects the whole snapshot — EVERY file of
+   the snapshot beneath it is selected *)
 Theorem head_dir_paths_complete : forall its a q,
-  Forall wf_item its -> nodes_unique (map node_of its) -> a <> [x2e] ->
+  Forall wf_item its -> nodes_unique (map node_of its) ->
   leaf_node (map node_of its) a = None ->
   In q (paths_of its) -> under_dir a q = true ->
   In q (head_dir_paths (map node_of its) a).
 Proof.
-  intros its a q Hwf Hu Hdot Hl Hq Hund.
+  intros its a q Hwf Hu Hl Hq Hund.
+  destruct (bytes_eq_dec a [x2e]) as [->|Hdot]; [apply (head_dir_paths_dot its q Hwf Hq)|].
   apply (under_dir_spec a q Hdot) in Hund. destruct Hund as (r & Hr & Eq).
   unfold paths_of in Hq. apply in_map_iff in Hq. destruct Hq as [e [He Hin]].
   assert (Hp : e_path e = a ++ c_slash :: r) by (rewrite He, Eq; reflexivity).
   destruct (rf_gn_dir_complete (S (S (path_depth a))) its a e r (Nat.lt_lt_succ_r _ _ (Nat.lt_succ_diag_r _)) Hwf Hu Hin Hp)
     as (x & Hx & Hcase).
   fold (get_node (map node_of its) a) in Hx.
-  unfold head_dir_paths. rewrite Hx.
+  unfold head_dir_paths. rewrite Hx. apply in_or_app. right.
   destruct Hcase as [Hlf|(nm & sub & e1 & -> & Hwd & He1 & Epe)].
   { exfalso. unfold leaf_node in Hl. rewrite Hx, Hlf in Hl. discriminate Hl. }
   rewrite (wf_dir_not_leaf nm sub Hwd).
@@ -1312,17 +1350,42 @@ Definition st_selected_spec (w : world) (s : list entry) (args : list bytes) (q 
   exists a, In a args /\
     ((q = a /\ (staged w a <> None \/ stg s a <> None)) \/
      (staged w a = None /\ stg s a = None /\ under_dir a q = true /\
-      (staged w q <> None \/ (a <> [x2e] /\ stg s q <> None)))).
+      (staged w q <> None \/ stg s q <> None))).
+
+(* "." selects every path of the staging area and every path of the snapshot *)
+Lemma st_selected_spec_dot : forall w s q, stg s [x2e] = None -> staged w [x2e] = None ->
+  (st_selected_spec w s [[x2e]] q <-> q <> [] /\ (staged w q <> None \/ stg s q <> None)).
+Proof.
+  intros w s q Hs Hw. unfold st_selected_spec. split.
+  - intros [a [[<-|[]] [[-> [H|H]]|(_ & _ & Hu & H)]]].
+    + contradiction (H Hw).
+    + contradiction (H Hs).
+    + split; [apply under_dir_dot; exact Hu | exact H].
+  - intros [Hq H]. exists [x2e]. split; [left; reflexivity|]. right.
+    split; [exact Hw|]. split; [exact Hs|]. split; [apply under_dir_dot; exact Hq | exact H].
+Qed.
 
 (* the two agree when HEAD's tree holds no two directories of one name; the
    direction "selected by the model -> selected by the specification" needs no
-   such hypothesis except for the exclusion of "." *)
+   such hypothesis *)
+Lemma st_selected_sound : forall w its args q,
+  Forall wf_item its -> Canonical (flat_items [] its) ->
+  st_selected w (map node_of its) args q -> st_selected_spec w (flat_items [] its) args q.
+Proof.
+  intros w its args q Hwf Hc. unfold st_selected, st_selected_spec.
+  rewrite (flatten_items its Hwf).
+  intros [a [Ha H]]; exists a; (split; [exact Ha|]).
+  destruct H as [H|(H1 & H2 & [[H3 H4]|H3])]; [left; exact H | right; auto |].
+  right. split; [exact H1|]. split; [exact H2|].
+  destruct (head_dir_paths_sound its a q Hwf H3) as [Hin Hund]. split; [exact Hund|]. right.
+  intro H. apply (stg_none_iff _ _ Hc) in H. exact (H Hin).
+Qed.
+
 Theorem st_selected_iff : forall w its args q,
   Forall wf_item its -> Canonical (flat_items [] its) -> nodes_unique (map node_of its) ->
-  (forall a, In a args -> get_node (map node_of its) a = None \/ a <> [x2e]) ->
   (st_selected w (map node_of its) args q <-> st_selected_spec w (flat_items [] its) args q).
 Proof.
-  intros w its args q Hwf Hc Hu Hdotarg. unfold st_selected, st_selected_spec.
+  intros w its args q Hwf Hc Hu. unfold st_selected, st_selected_spec.
   rewrite (flatten_items its Hwf).
   assert (Hstg : forall p, stg (flat_items [] its) p <> None <-> In p (paths_of its)).
   { intro p. split.
@@ -1333,12 +1396,10 @@ Proof.
   - destruct H as [H|(H1 & H2 & [[H3 H4]|H3])]; [left; exact H | right; auto |].
     right. split; [exact H1|]. split; [exact H2|].
     destruct (head_dir_paths_sound its a q Hwf H3) as [Hin Hund]. split; [exact Hund|]. right.
-    split; [|apply Hstg; exact Hin].
-    destruct (Hdotarg a Ha) as [Hg|Hd]; [|exact Hd].
-    unfold head_dir_paths in H3. rewrite Hg in H3. contradiction H3.
-  - destruct H as [H|(H1 & H2 & H3 & [H4|[H4 H5]])]; [left; exact H | right; auto |].
+    apply Hstg; exact Hin.
+  - destruct H as [H|(H1 & H2 & H3 & [H4|H5])]; [left; exact H | right; auto |].
     right. split; [exact H1|]. split; [exact H2|]. right.
-    apply (head_dir_paths_complete its a q Hwf Hu H4); [|apply Hstg; exact H5 | exact H3].
+    apply (head_dir_paths_complete its a q Hwf Hu); [|apply Hstg; exact H5 | exact H3].
     unfold leaf_node. destruct (get_node (map node_of its) a) as [n|] eqn:Hg; [|reflexivity].
     destruct (is_leaf n) eqn:Hl; [|reflexivity]. exfalso.
     assert (Hin : In a (paths_of its)).
@@ -1352,7 +1413,6 @@ Corollary restore_staged_total_spec : forall e c w args its,
   w_inited w = true -> ctx_of w = Some c ->
   head_nodes c w = Some (map node_of its) ->
   Forall wf_item its -> Canonical (flat_items [] its) -> nodes_unique (map node_of its) ->
-  (forall a, In a args -> get_node (map node_of its) a = None \/ a <> [x2e]) ->
   args <> [] ->
   (forall a, In a args -> st_known w (map node_of its) a) ->
   repeats_in_head (map node_of its) (idx_targets w (map node_of its) args) ->
@@ -1364,14 +1424,116 @@ Corollary restore_staged_total_spec : forall e c w args its,
     same_wt w w' /\ same_objs w w' /\ ExactFacts.same_meta w w' /\
     w' = apply_effects tr w /\ Forall (fun ef => is_idx ef = true) tr.
 Proof.
-  intros e c w args its Hr Hc Hs Hi Hx Hn Hwf Hcan Hu Hdot Hne Hknown Hrep.
+  intros e c w args its Hr Hc Hs Hi Hx Hn Hwf Hcan Hu Hne Hknown Hrep.
   destruct (restore_staged_total e c w args (map node_of its) Hr Hc Hs Hi Hx Hn Hne Hknown Hrep)
     as (w' & tr & Hstep & [Pc Pd Pk Pw Po Pm] & Hw' & Hg).
   exists w', tr. split; [exact Hstep|]. split; [exact Pc|].
   rewrite (flatten_items its Hwf) in Pd.
   split; [|split; [|auto 10]].
-  - intros q Hq. apply Pd. apply (st_selected_iff w its args q Hwf Hcan Hu Hdot). exact Hq.
-  - intros q Hq. apply Pk. intro H. apply Hq. apply (st_selected_iff w its args q Hwf Hcan Hu Hdot). exact H.
+  - intros q Hq. apply Pd. apply (st_selected_iff w its args q Hwf Hcan Hu). exact Hq.
+  - intros q Hq. apply Pk. intro H. apply Hq. apply (st_selected_iff w its args q Hwf Hcan Hu). exact H.
+Qed.
+
+(* ---------- `restore --staged .` resets the whole staging area ---------- *)
+Lemma rf_valid_path_nonempty : forall q, valid_path q -> q <> [].
+Proof.
+  intros q Hv ->. unfold valid_path in Hv. cbn [split_all] in Hv.
+  inversion Hv as [|? ? [Hne _] _]. apply Hne. reflexivity.
+Qed.
+
+(* "." is known as soon as something is staged or HEAD's snapshot holds a file *)
+Lemma st_known_dot : forall w ns, Canonical (idx_of w) -> Forall valid_entry (idx_of w) ->
+  idx_of w <> [] \/ flatten [] ns <> [] -> st_known w ns [x2e].
+Proof.
+  intros w ns Hc Hv [Hi|Hf]; right; right.
+  - left. destruct (idx_of w) as [|[i q] l] eqn:Ei; [contradiction Hi; reflexivity|].
+    exists q. split.
+    + assert (Hs : staged w q = Some i).
+      { apply (staged_some_iff w q i); [rewrite Ei; exact Hc | rewrite Ei; left; reflexivity]. }
+      rewrite Hs. discriminate.
+    + apply under_dir_dot. inversion Hv as [|? ? [_ Hp] _]. cbn [e_path] in Hp.
+      apply (rf_valid_path_nonempty q Hp).
+  - right. unfold head_dir_paths. rewrite bytes_eqb_refl.
+    destruct (flatten [] ns); [contradiction Hf; reflexivity | discriminate].
+Qed.
+
+(* one argument never names a path twice *)
+Lemma repeats_in_head_one : forall w ns a, repeats_in_head ns (idx_targets w ns [a]).
+Proof.
+  intros w ns a. apply nodup_repeats_in_head. unfold idx_targets. cbn [map concat].
+  rewrite app_nil_r. apply restore_targets_staged_nodup.
+Qed.
+
+(* what "." selects: every staged path and every file of HEAD's snapshot (the
+   name "." itself is neither: it names the root of the work tree) *)
+Lemma st_selected_dot : forall w ns q, NsGood ns -> Canonical (idx_of w) -> Forall valid_entry (idx_of w) ->
+  staged w [x2e] = None -> stg (flatten [] ns) [x2e] = None ->
+  (st_selected w ns [[x2e]] q <-> staged w q <> None \/ stg (flatten [] ns) q <> None).
+Proof.
+  intros w ns q Hns Hcan Hv Hw Hs. destruct Hns as (its & -> & Hwf & Hc & _).
+  assert (Hstg : forall p, stg (flatten [] (map node_of its)) p <> None <-> In p (paths_of its)).
+  { intro p. rewrite (flatten_items its Hwf). split.
+    - intro H. destruct (in_dec bytes_eq_dec p (paths_of its)) as [Hi|Hn]; [exact Hi|].
+      exfalso. apply H. apply (stg_none_iff _ _ Hc). exact Hn.
+    - intros Hi H. apply (stg_none_iff _ _ Hc) in H. exact (H Hi). }
+  unfold st_selected. split.
+  - intros [a [[<-|[]] [[-> H]|(_ & _ & [[H _]|H])]]]; [exact H | left; exact H | right].
+    apply Hstg. apply (head_dir_paths_sound its [x2e] q Hwf H).
+  - intro H. exists [x2e]. split; [left; reflexivity|]. right.
+    split; [exact Hw|]. split; [exact Hs|]. destruct H as [H|H].
+    + left. split; [exact H|]. apply under_dir_dot.
+      destruct (staged w q) as [i|] eqn:Eq; [|contradiction H; reflexivity].
+      apply (staged_some_iff w q i Hcan) in Eq.
+      rewrite Forall_forall in Hv. destruct (Hv _ Eq) as [_ Hvp]. cbn [e_path] in Hvp.
+      apply (rf_valid_path_nonempty q Hvp).
+    + right. apply (head_dir_paths_dot its q Hwf). apply Hstg. exact H.
+Qed.
+
+(* `restore --staged .` on a reachable repository: the staging area BECOMES
+   HEAD's snapshot — paths staged but not in HEAD are unstaged, paths of HEAD
+   that were removed from the staging area are re-created, every id is HEAD's —
+   and nothing else changes.  The hypotheses are those of (R2) for the one
+   argument ".": something is staged or HEAD's snapshot holds a file (otherwise
+   "." names nothing and the command is refused); [repeats_in_head] holds of a
+   single argument.  "." itself must not be the name of a staged path or of a
+   file of HEAD: the model, like the program, takes a tracked name as that one
+   path (no file can be called "." on disk, but no invariant of this
+   development records that such a name is never staged). *)
+Corollary restore_staged_dot_resets_everything : forall e c w ns,
+  Reachable w -> w_coll w = false -> SmallStore (w_objs w) ->
+  w_inited w = true -> ctx_of w = Some c ->
+  head_nodes c w = Some ns ->
+  staged w [x2e] = None -> stg (flatten [] ns) [x2e] = None ->
+  idx_of w <> [] \/ flatten [] ns <> [] ->
+  exists w' tr,
+    step (ACmd e (CRestore true [[x2e]])) w = (w', OOk [], tr) /\
+    idx_of w' = flatten [] ns /\
+    (forall q, staged w' q = stg (flatten [] ns) q) /\
+    same_wt w w' /\ same_objs w w' /\ ExactFacts.same_meta w w' /\
+    w' = apply_effects tr w /\ Forall (fun ef => is_idx ef = true) tr.
+Proof.
+  intros e c w ns Hr Hc Hs Hi Hx Hn Hw Hh Hne.
+  destruct (reachable_head_nodes w c ns Hr Hc Hs Hx Hn) as (_ & _ & _ & _ & _ & _ & _ & Hns & _).
+  pose proof (reachable_canonical w Hr Hc Hs) as Hcan.
+  destruct (reachable_good w Hr Hc Hs) as (_ & [_ Hv] & _).
+  destruct (restore_staged_total e c w [[x2e]] ns Hr Hc Hs Hi Hx Hn) as (w' & tr & Hstep & [Pc Pd Pk Pw Po Pm] & Hw' & Hg).
+  - discriminate.
+  - intros a [<-|[]]. apply (st_known_dot w ns Hcan Hv Hne).
+  - apply repeats_in_head_one.
+  - assert (Hall : forall q, staged w' q = stg (flatten [] ns) q).
+    { intro q.
+      destruct (staged w q) as [i|] eqn:Eq.
+      { apply Pd. apply (st_selected_dot w ns q Hns Hcan Hv Hw Hh). left. rewrite Eq. discriminate. }
+      destruct (stg (flatten [] ns) q) as [j|] eqn:Ej.
+      { rewrite <- Ej. apply Pd. apply (st_selected_dot w ns q Hns Hcan Hv Hw Hh). right. rewrite Ej. discriminate. }
+      rewrite <- Eq. apply Pk. intro Hsel. apply (st_selected_dot w ns q Hns Hcan Hv Hw Hh) in Hsel.
+      destruct Hsel as [H|H]; [exact (H Eq) | exact (H Ej)]. }
+    exists w', tr. split; [exact Hstep|]. split; [|split; [exact Hall | auto 10]].
+    destruct Hns as (its & Ens & Hwf & Hcf & _).
+    apply Canonical_ext; [exact Pc | rewrite Ens, (flatten_items its Hwf); exact Hcf |].
+    intros [i q].
+    rewrite <- (staged_some_iff w' q i Pc), Hall.
+    apply stg_some_iff. rewrite Ens, (flatten_items its Hwf). exact Hcf.
 Qed.
 
 (* (R1) under the simpler, stronger hypotheses "every tracked path can be
@@ -1588,17 +1750,51 @@ Example rx_staged_twice_in_head_ok :
   snd (fst (step (ACmd rx_env (CRestore true [str "d"%string; str "d/x"%string])) rx_w1)) = OOk [].
 Proof. vm_compute. reflexivity. Qed.
 
-(* ---------- (F-3) "." selects staged paths only ---------- *)
-(* d/x is in HEAD's snapshot and beneath "."; [restore --staged .] answers Ok
-   and leaves it unstaged, whereas [restore --staged d] stages it again *)
-Example rx_staged_dot :
+(* ---------- (F-3, repaired) "." selects the whole of HEAD's snapshot ---------- *)
+(* d/x is in HEAD's snapshot and was removed from the staging area with [rm];
+   [restore --staged .] stages it again with HEAD's id, exactly as
+   [restore --staged d] does, unstages n (not in HEAD), and the staging area is
+   HEAD's snapshot again; the work tree is untouched *)
+Example rx_staged_dot_restores :
+  staged rx_w1 (str "d/x"%string) = None /\
   stg (flatten [] rx_ns) (str "d/x"%string) <> None /\
   under_dir (str "."%string) (str "d/x"%string) = true /\
   (let '(w', o, tr) := step (ACmd rx_env (CRestore true [str "."%string])) rx_w1 in
-   o = OOk [] /\ staged w' (str "d/x"%string) = None /\ staged w' (str "n"%string) = None) /\
+   o = OOk [] /\ length tr = 2 /\
+   staged w' (str "d/x"%string) = stg (flatten [] rx_ns) (str "d/x"%string) /\
+   staged w' (str "n"%string) = None /\
+   idx_of w' = flatten [] rx_ns /\ w_files w' = w_files rx_w1 /\ w_dirs w' = w_dirs rx_w1) /\
   (let '(w', o, tr) := step (ACmd rx_env (CRestore true [str "d"%string])) rx_w1 in
    o = OOk [] /\ staged w' (str "d/x"%string) = stg (flatten [] rx_ns) (str "d/x"%string)).
 Proof. vm_compute. repeat split; discriminate. Qed.
+
+(* after [rm] of SEVERAL committed paths (a file at the top, a whole directory)
+   nothing of them is staged; [restore --staged .] re-creates every one of them *)
+Definition rx_w_rm : world :=
+  Eval vm_compute in run [ACmd rx_env (CRm [str "d-old"%string; str "d"%string])] rx_w1.
+Example rx_staged_dot_restores_all :
+  map e_path (idx_of rx_w_rm) = [str "a"%string; str "n"%string] /\
+  (let '(w', o, tr) := step (ACmd rx_env (CRestore true [str "."%string])) rx_w_rm in
+   o = OOk [] /\
+   map e_path (idx_of w') = [str "a"%string; str "d-old"%string; str "d/e/y"%string; str "d/x"%string] /\
+   idx_of w' = flatten [] rx_ns /\ w_files w' = w_files rx_w_rm /\ w_dirs w' = w_dirs rx_w_rm).
+Proof. vm_compute. repeat split. Qed.
+
+(* the corollary applies to the example *)
+Example rx_staged_dot_applies :
+  exists w' tr,
+    step (ACmd rx_env (CRestore true [str "."%string])) rx_w1 = (w', OOk [], tr) /\
+    idx_of w' = flatten [] rx_ns /\
+    (forall q, staged w' q = stg (flatten [] rx_ns) q) /\
+    same_wt rx_w1 w' /\ same_objs rx_w1 w' /\ ExactFacts.same_meta rx_w1 w' /\
+    w' = apply_effects tr rx_w1 /\ Forall (fun ef => is_idx ef = true) tr.
+Proof.
+  apply (restore_staged_dot_resets_everything rx_env rx_c rx_w1 rx_ns
+           rx_reachable rx_coll rx_small rx_inited rx_ctx rx_head).
+  - vm_compute. reflexivity.
+  - vm_compute. reflexivity.
+  - left. vm_compute. discriminate.
+Qed.
 
 (* ---------- (R3) applies, both modes ---------- *)
 Example rx_unknown_refused : forall stg_mode,
@@ -1611,7 +1807,7 @@ Proof.
   - intros en Hin. vm_compute in Hin.
     repeat (destruct Hin as [<-|Hin]; [vm_compute; reflexivity|]). contradiction Hin.
   - intros _ c ns Hx Hn. rewrite rx_ctx in Hx. injection Hx as <-.
-    rewrite rx_head in Hn. injection Hn as <-. vm_compute. reflexivity.
+    rewrite rx_head in Hn. injection Hn as <-. split; [vm_compute; reflexivity | intro H; discriminate H].
 Qed.
 (* the computation agrees, and without the unknown argument both succeed *)
 Example rx_unknown_computed :
@@ -1645,8 +1841,6 @@ Proof.
   pose proof rx_nodes_unique as Hu. rewrite Ens in Hu |- *.
   rewrite (flatten_items its Hwf).
   apply (st_selected_iff rx_w1 its _ q Hwf Hcan Hu).
-  intros a _. rewrite <- Ens.
-  destruct (bytes_eq_dec a [x2e]) as [->|Hne]; [left; vm_compute; reflexivity | right; exact Hne].
 Qed.
 
 (* ================================================================== *)
@@ -1667,5 +1861,8 @@ Print Assumptions rx_staged_total_applies.
 Print Assumptions rx_unknown_refused.
 Print Assumptions rx_flat_needed.
 Print Assumptions rx_staged_twice_fails.
-Print Assumptions rx_staged_dot.
+Print Assumptions restore_staged_dot_resets_everything.
+Print Assumptions rx_staged_dot_restores.
+Print Assumptions rx_staged_dot_restores_all.
+Print Assumptions rx_staged_dot_applies.
 Print Assumptions rx_selection_exact.
